@@ -153,12 +153,21 @@ T = {
              "wide_integer<193..256, uint64_t> (4 limbs), left < 2^128, right with limb 2 zero and limb 3 non-zero: 3 * 2^192 == 0", ["C10"]),
  "M-C17-1": ("C17", "make_fraction: the denominator clamp of the accelerated mediant step compares with the UNSIGNED type's maximum, so the denominator wraps negative (fraction/make_fraction.h)",
              "fraction<int32_t> from double such as pi/54 (the search reaches the denominator clamp)", []),
+ "M-C10-3": ("C10", "uintwide_t::shl takes the whole-limb part of the shift count from static_cast<std::uint_fast8_t>(n): x << n is computed as x << (n mod 256) (ckormanyos/uintwide_t.h)",
+             "multi-limb wide_integer wider than 256 bits, left-shift count in [256, width)", ["C10"]),
+ "M-C04-5": ("C04", "eval_divide_knuth_core, branch d == 1: the limb cleared above the numerator is indexed with v_offset instead of u_offset, zeroing a real numerator limb (ckormanyos/uintwide_t.h)",
+             "narrowing the exponent of a scaled_integer over a multi-limb wide_integer by 63, 95, 127, ... (divisor 2^k whose top limb is 0x80000000), |rep| >= 2^(k+1)", ["C04", "C10", "C02"]),
+ "M-C01-5": ("C01", "generic eval_multiply_n_by_n_to_lo_part: the outer loop stops one row early, dropping a[count-1]*b[0] (ckormanyos/uintwide_t.h)",
+             "scaled_integer over a multi-limb wide_integer (any limb count but 4) with a negative rep (or one using the top limb): a*b, and a+b / a-b with different exponents (alignment multiplies)", ["C01", "C10"]),
 }
 
 
 # id -> what happened when the change was first run against the checks, and what was strengthened because of it
 HIST = {
  "M-C10-2": "missed at first (limb arithmetic was declared undecided): the limb algebra (vlib/limbalg.py) was written for it; C10 now re-expresses + - * unary- ++ -- << >> of 8 (q) / 70 multi-limb instantiations as integer polynomials over the limbs and reports this change with a counterexample on the fast path (b2 == 0, b3 != 0)",
+ "M-C10-3": "reported by the limb algebra (shl by W-1 on the 512-bit instantiation: counterexample)",
+ "M-C04-5": "NOT reported: inside Knuth's division, whose magnitudes are the one part of the limb arithmetic the limb algebra does not decide (data-dependent trip counts, a correctness argument that is not a telescoping identity); only the sign discipline of / and % is decided",
+ "M-C01-5": "reported by the multi-limb block of C01 (added with the limb algebra) and by C10's multiplication obligations",
  "M-C10-1": "reported by the sign rule G2 (written after M-C02-3)",
  "M-C17-1": "NOT reported: C17 is not applicable (the mediant search is driven by floating-point comparisons; nothing of this clamp is visible in types or code shape)",
  "M-C20-1": "reported by the constant facts (the series fall-back is 8-10 units low for the 64-bit reps it now serves)",
